@@ -10,7 +10,7 @@ EXPLANATION = (
     "counters count as 1), whose numbers are strictly increasing in outline order. "
 )
 OUTSIDE = ("documents with more than 3 headings at the TOC.fill level, heading texts longer than 2 characters or containing spans, default TOC styles (use_default_styles=True), sequences longer than 5 headings at the numbering level, "
-           "the odfdo-headers script")
+           "the odfdo-headers script's command line, file reading and stdin handling (its headers_document function is covered)")
 ASSUMPTIONS = ["levels 1..10"]
 TRUSTED = _T
 _ENC = ["src/odfdo/toc.py:TOC._header_numbering"]
@@ -44,6 +44,22 @@ for _pos in (0, 3):
 OBLIGATIONS += [
     Obl(name="toc_twice", module="h_toc", func="toc_twice", shadow=True, timeout=200, replay="r_h_toc:toc_twice", weight=27,
         bounds="3 headings (levels 1, 1..2, 1..3), outline 1..2, TOC between the headings; fill; fill", encodes=_AENC, stubs=_ASTUB),
+] + [
+    Obl(name=f"toc_relevel_from{_o1}", module="h_toc", func="toc_relevel", shadow=True, timeout=600, env={"VERIF_TOC_OUTLINE": str(_o1)}, extra={"o1": _o1},
+        replay="r_h_toc:toc_relevel", weight=80,
+        bounds=f"3 headings (levels 1, 1..2, 1..3), outline level {_o1} at construction, fill, outline_level set to o2 in 0..2 through the property, fill again", encodes=_AENC, stubs=_ASTUB)
+    for _o1 in range(3)
+] + [
     Obl(name="toc_text", module="h_toc", func="toc_text", shadow=True, timeout=400, replay="r_h_toc:toc_text", weight=90,
         bounds="2 headings, the second with a symbolic text of <= 2 characters over {a, space}, outline 0..2", encodes=_AENC, stubs=_ASTUB),
 ]
+
+for _o in range(3):
+    for _sp in (0, 1):
+        OBLIGATIONS.append(Obl(name=f"tool_outline_depth{_o}_{'span' if _sp else 'plain'}", module="h_toc", func="tool_outline", shadow=True, timeout=900,
+                               env={"VERIF_TOC_OUTLINE": str(_o), "VERIF_SPAN": str(_sp)}, extra={"outline": _o, "in_span": bool(_sp)}, replay="r_h_toc:tool_outline", weight=160,
+                               tier="quick" if (_o, _sp) in ((0, 1), (2, 0)) else "thorough",
+                               bounds=(f"odfdo-headers' headers_document(document, depth={_o if _o else 999}) on a Document over the in-memory container: 3 headings (levels 1, 1..2, 1..3), the second "
+                                       f"with a symbolic text of <= 2 characters over {{a, space}} {'inside a span' if _sp else 'as its own text'}; printed lines = outline model used for the TOC"),
+                               encodes=["src/odfdo/scripts/headers.py:headers_document,header_numbering", "src/odfdo/header.py:Header.__init__,__str__", "src/odfdo/body.py:Body.headers"] + _AENC[:1],
+                               stubs=_ASTUB + ["memdoc.MemContainer (in-memory container)", "sys.stdout replaced by a recorder"]))
